@@ -164,3 +164,56 @@ def report_row(args):
         details.setdefault(tid, {}).update({'column': col, 'variant': variant, 'constraints': cd2, 'epsilon': e, 'type_checking': tc})
         tid += 1
     return {'events': events, 'details': details, 'mism': mism, 'error': None}
+
+
+def mixed_frame(args):
+    """Two or three DIFFERENT model columns (same number of records) in one frame, each carrying a random part of its
+    constraints (at most one of a kind): every verdict is the specification's verdict for that field alone - what is
+    computed for one field never reaches another."""
+    import random
+    rows, variants, pools, seed = args
+    from tdda.constraints import verify_df
+    rnd = random.Random(seed)
+    mism = []
+    n = 0
+    keys = None
+    for r in rows:
+        ks = set(cr.groups(r['cons']))
+        keys = ks if keys is None else keys & ks
+    for key in sorted(keys or ()):
+        eps, tc = key
+        data, fields, members = {}, {}, {}
+        order = list(range(len(rows)))
+        rnd.shuffle(order)
+        try:
+            for j in order:
+                r = rows[j]
+                bykind = {}
+                for i in cr.groups(r['cons'])[key]:
+                    bykind.setdefault(r['cons'][i]['k'], []).append(i)
+                chosen = [rnd.choice(lst) for k, lst in sorted(bykind.items()) if rnd.random() < 0.5]
+                if not chosen:
+                    chosen = [rnd.choice(lst) for k, lst in sorted(bykind.items())][:1]
+                df1, cd1, mem1 = merged(r['col'], r['cons'], chosen, variants[j], pools[j], maxfields=1)
+                name = 'm%d' % j
+                data[name] = df1['g0']
+                fields[name] = cd1['fields']['g0']
+                members[name] = (r, mem1['g0'])
+            df = pd.DataFrame(data)
+        except Exception as ex:
+            return {'n': n, 'mism': mism, 'error': 'mixed: %s: %s' % (type(ex).__name__, ex)}
+        try:
+            with cl.quiet():
+                v = verify_df(df, {'fields': fields}, epsilon=cr.eps_float(eps), type_checking=tc, repair=False)
+        except Exception:
+            continue        # (raising constraints belong to the per-constraint replay)
+        vm = vmap(v)
+        n += 1
+        for name, (r, mem) in members.items():
+            for k, i in mem.items():
+                c = r['cons'][i]
+                got = {'T': True, 'F': False, 'N': 'none'}.get(vm.get(name, {}).get(k), 'absent')
+                if c['dem'] and got != c['spec']:
+                    mism.append({'clause': 'VerdictIsSpec', 'kind': k, 'con': c, 'observed': got, 'expected': c['spec'], 'column': r['col'],
+                                 'eps': list(eps), 'tc': tc, 'frame_fields': fields, 'field': name, 'field_order': list(df.columns)})
+    return {'n': n, 'mism': mism, 'error': None}
